@@ -1,0 +1,48 @@
+//go:build verif
+
+package hook
+
+// Contracts for the verification framework in /verif (comment-only file, build tag `verif`).
+
+// ---- C20 / C06: loading order of hooks ------------------------------------------------------
+
+// Ghost log of loadHook calls (each call runs `<hook> --config` exactly once, see loadHook).
+//@ ghost nLoad int
+//@ ghost loadLog map[int]string
+
+// loadHook is assumed to touch only the hook it creates; the contract defines the ghost log.
+//@ trusted func (*Manager).loadHook
+//@   modifies nLoad, loadLog
+//@   ensures nLoad == old(nLoad) + 1 && loadLog[old(nLoad)] == hookPath
+//@   ensures forall(i, int, i != old(nLoad) ==> loadLog[i] == old(loadLog[i]))
+//@   ensures result1 == nil ==> result0 != nil && result0.Config != nil
+
+// UpdateConversionChains only fills the conversion chain storage.
+//@ trusted func (*Manager).UpdateConversionChains
+//@   modifies nothing
+
+//@ package github.com/flant/shell-operator/pkg/hook/config
+//@ trusted func (*HookConfig).Bindings
+//@   modifies nothing
+//@   ensures fresh(result)
+//@ package github.com/flant/shell-operator/pkg/hook
+
+// C20: every discovered path is loaded exactly once, in lexical order of the paths; the first
+// failing hook aborts initialization. C06: hook names are indexed in that order.
+//@ func (*Manager).Init
+//@   prop C20, C06
+//@   requires len(hm.hookNamesInOrder) == 0 || allocated(hm.hookNamesInOrder)
+//@   modifies hm.hooksInOrder, hm.hooksByName, hm.hookNamesInOrder, nLoad, loadLog, utils_file.lastDiscovered, allelems(string), allelems(*Hook)
+//@   ensures [load-order] result == nil ==> forall(i, old(nLoad), nLoad-1, !(loadLog[i+1] < loadLog[i]))
+//@   ensures [each-once]  result == nil ==> nLoad == old(nLoad) + utils_file.lastDiscovered
+//@   ensures [names]      result == nil ==> len(hm.hookNamesInOrder) == old(len(hm.hookNamesInOrder)) + utils_file.lastDiscovered
+//@   loop 1
+//@     invariant 0 <= iter() && iter() <= len(hooksRelativePaths) && utils_file.lastDiscovered == len(hooksRelativePaths)
+//@     invariant nLoad == old(nLoad) + iter()
+//@     invariant forall(j, 0, len(hooksRelativePaths), hooksRelativePaths[j] == atloop(hooksRelativePaths[j]))
+//@     invariant forall(j, 0, len(hooksRelativePaths)-1, !(hooksRelativePaths[j+1] < hooksRelativePaths[j]))
+//@     invariant forall(i, old(nLoad), old(nLoad)+iter(), loadLog[i] == hooksRelativePaths[i-old(nLoad)])
+//@     invariant len(hm.hookNamesInOrder) == old(len(hm.hookNamesInOrder)) + iter()
+//@     invariant len(hooksRelativePaths) == 0 || base(hm.hookNamesInOrder) != base(hooksRelativePaths)
+//@   loop 2
+//@     invariant nLoad == atloop(nLoad)
